@@ -115,7 +115,8 @@ def check_property(prop, tier, seed=0, replay_path=None, only=None):
     vio_lines = []
     for r, fails in violations:
         c = r.c
-        rp = os.path.join(replay_dir, re.sub(r"[^A-Za-z0-9_.-]", "_", c.ident()) + ".json")
+        from .build import text_hash
+        rp = os.path.join(replay_dir, re.sub(r"[^A-Za-z0-9_.-]", "_", c.ident()) + "-" + text_hash(c.ident())[:6] + ".json")
         trace = None
         for p in fails:
             if p.get("trace"):
